@@ -982,10 +982,32 @@ func validatePointer[T any](
 	if sameValue(reflect.ValueOf(&v).Elem(), reflect.ValueOf(ptr).Elem()) {
 		return ptr, nil
 	}
+	// A validator that builds its result map afresh (an object) and dropped, added and changed
+	// nothing hands out a map with exactly the caller's entries: the answer is what the
+	// caller's pointer refers to, so the caller's own pointer is the result here too.
+	if sameEntries(reflect.ValueOf(&v).Elem(), reflect.ValueOf(ptr).Elem()) {
+		return ptr, nil
+	}
 	// A validator that built a new value (an object's result map without the unknown keys, a
 	// record with canonical keys, a struct with field defaults) gets a pointer of its own; the
 	// variable the caller's pointer refers to keeps the value it had.
 	return &v, nil
+}
+
+// sameEntries reports whether a and b, two values of one type, are non-nil maps holding
+// exactly the same entries: the same keys, each with the same bits (sameValue) as value.
+func sameEntries(a, b reflect.Value) bool {
+	if a.Kind() != reflect.Map || a.IsNil() || b.IsNil() || a.Len() != b.Len() {
+		return false
+	}
+	iter := a.MapRange()
+	for iter.Next() {
+		bv := b.MapIndex(iter.Key())
+		if !bv.IsValid() || !sameValue(iter.Value(), bv) {
+			return false
+		}
+	}
+	return true
 }
 
 // sameValue reports whether a and b, two values of one type, are the same bits: scalars
